@@ -1,5 +1,6 @@
 import PpciVerif.Proofs.IRWF
 import PpciVerif.Proofs.OptWF
+import PpciVerif.Proofs.OptWFDel
 /-!
 # C03 — optimization passes keep IR well-formed
 
@@ -14,12 +15,12 @@ Property theorems only.
 * Pass models: `Model.Opt` (tied to ppci/opt by the differential run of harness/c03.py and harness/c02.py).
 
 V part: `wf_checker_decides_WF`, `wfModule_checker_decides_WFModule` (+ the two graph theorems they rest on).
-P part: `replace_by_preserves_wf`, `cse_preserves_wf`, `removeAddZero_preserves_wf_partial`;
-stated and not shown: `deleteUnused_preserves_wf_full`, `constFold_preserves_wf_full` (and everything about
-mem2reg, clean, tailcall, cjump, load-after-store: validated per output only).
+P part: `replace_by_preserves_wf`, `cse_preserves_wf`, `deleteUnused_preserves_wf`, `removeAddZero_preserves_wf_partial`;
+stated and not shown: `constFold_preserves_wf_full` (and nothing is claimed as a theorem about mem2reg, clean, tailcall,
+cjump, load-after-store: validated per output only).
 -/
 namespace Props.C03
-open Spec.IR Spec.IRWF Model.Opt Proofs.OptWF
+open Spec.IR Spec.IRWF Model.Opt Proofs.OptWF Proofs.OptWFDel
 
 /-! ## V part: the Boolean checker decides the declarative definition -/
 
@@ -67,6 +68,17 @@ theorem cse_preserves_wf (m m' : Module) (h : WFModule m)
   cases hr
   exact (Proofs.IRWF.wfModule_iff _).1
     (wfModule_mapFuncs cse sameSig_cse (fun f _ hf => wf_cse f hf) ((Proofs.IRWF.wfModule_iff m).2 h))
+
+/-- **DeleteUnusedInstructionsPass** (model `Model.Opt.deleteUnused`): well-formed in, well-formed out.
+    No side condition.  (Removing the definition of a value that no instruction uses — phi inputs included —
+    keeps every clause; definition sites move to the position among the kept instructions.) -/
+theorem deleteUnused_preserves_wf (m m' : Module) (h : WFModule m)
+    (hr : runPass (fun f => .ok (deleteUnused f)) m = .ok m') : WFModule m' := by
+  rw [runPass_ok] at hr
+  cases hr
+  exact (Proofs.IRWF.wfModule_iff _).1
+    (wfModule_mapFuncs deleteUnused sameSig_deleteUnused (fun f _ hf => wf_deleteUnused f hf)
+      ((Proofs.IRWF.wfModule_iff m).2 h))
 
 /-- **RemoveAddZeroPass** (model `Model.Opt.removeAddZero`): well-formed in, well-formed out, provided no
     call goes through the result of a `binop` (`noBinopCallee`). -/
@@ -118,11 +130,6 @@ theorem removeAddZero_full_fails : ¬ removeAddZero_preserves_wf_full := by
 
 /-! ### stated, not shown -/
 
-/-- DeleteUnusedInstructionsPass keeps modules well-formed.  NOT shown (the proof needs the re-indexing of
-    definition sites under `List.filter`); every real output is validated by the checker instead. -/
-def deleteUnused_preserves_wf_full : Prop :=
-  ∀ m m' : Module, WFModule m → runPass (fun f => .ok (deleteUnused f)) m = .ok m' → WFModule m'
-
 /-- ConstantFolder keeps modules well-formed whenever it does not raise.  NOT shown (insertion of the new
     `Const` shifts definition sites; the chain rewrite replaces an instruction). Validated per output. -/
 def constFold_preserves_wf_full : Prop :=
@@ -147,6 +154,8 @@ def loopM : Module := { name := "m", externs := [], vars := [], funcs := [loopF]
 
 example : WFModule loopM := (wfModule_checker_decides_WFModule _).1 (by decide +kernel)
 example : cse loopF ≠ loopF := by decide +kernel
+example : deleteUnused (cse loopF) ≠ cse loopF := by decide +kernel
+example : wfFunc loopM (deleteUnused (cse loopF)) = true := by decide +kernel
 example : noBinopCallee loopF = true := by decide +kernel
 example : Dom loopF "h" "x" := (dominates_is_path_dominance _ _ _).1 (by decide +kernel)
 example : ¬ Dom loopF "b" "x" := fun h => absurd ((dominates_is_path_dominance _ _ _).2 h) (by decide +kernel)
@@ -159,5 +168,6 @@ example : wfFunc loopM { loopF with blocks := loopF.blocks.map fun b =>
 /-- the names used by the driver denote the proved models -/
 example : (passByName "cse").isSome = true := by decide +kernel
 example : (passByName "addzero").isSome = true := by decide +kernel
+example : (passByName "delunused").isSome = true := by decide +kernel
 
 end Props.C03
